@@ -952,12 +952,18 @@ func (g *Gen) opRefBurst(conns []*Client) {
 	} else {
 		g.w.Exec(Op{K: "mut", S: holder, O: "add", N: rapid.IntRange(0, len(v.Coll)).Draw(g.t, "idx"), Val: &ref})
 	}
-	n := rapid.IntRange(1, 3).Draw(g.t, "rbnev")
+	// more events while the target is in that state: for the holder, and for the
+	// target itself (they must wait behind the event that hands the target over)
+	n := rapid.IntRange(1, 4).Draw(g.t, "rbnev")
 	for i := 0; i < n; i++ {
+		on := holder
+		if rapid.Bool().Draw(g.t, "rbontarget") {
+			on = target
+		}
 		if rapid.Bool().Draw(g.t, "rbmut") {
-			g.mutate("mut", holder, "")
+			g.mutate("mut", on, "")
 		} else {
-			g.w.Exec(Op{K: "custom", S: holder, M: "custom"})
+			g.w.Exec(Op{K: "custom", S: on, M: "custom"})
 		}
 	}
 }
